@@ -117,8 +117,10 @@ def occ_attrs(mn, mx):
     return s
 
 
-def particle_xsd(p, ns="urn:t", qualified=True, types=None):
-    """XSD text; `types`: name -> key of ELEM_TYPES (default: every element xs:string)"""
+def particle_xsd(p, ns="urn:t", qualified=True, types=None, refs=(), subs=()):
+    """XSD text; `types`: name -> key of ELEM_TYPES (default: every element xs:string);
+    `refs`: element names written as references to global elements; `subs`: (member, head) pairs of
+    global elements with substitutionGroup="head" """
     types = types or {}
 
     def tname(n):
@@ -130,6 +132,8 @@ def particle_xsd(p, ns="urn:t", qualified=True, types=None):
         pad = "  " * ind
         if "elem" in q:
             n, mn, mx = q["elem"]
+            if n in refs:
+                return f'{pad}<xs:element ref="{n}"{occ_attrs(mn, mx)}/>\n'
             return f'{pad}<xs:element name="{n}" type="{tname(n)}"{occ_attrs(mn, mx)}/>\n'
         kind = "sequence" if "seq" in q else "choice"
         mn, mx, kids = q.get("seq") or q.get("choice")
@@ -143,6 +147,12 @@ def particle_xsd(p, ns="urn:t", qualified=True, types=None):
         for u, members in UNIONS.items()
         if u in {types.get(n) for n in types}
     )
+    heads = dict(subs)
+    globals_ = "".join(
+        f' <xs:element name="{n}" type="{tname(n)}"' + (f' substitutionGroup="{heads[n]}"' if n in heads else "") + "/>\n"
+        for n in list(dict.fromkeys(list(refs) + [m for m, _ in subs] + [h for _, h in subs]))
+    )
+    unions += globals_
     return (
         f'<?xml version="1.0"?>\n<xs:schema xmlns:xs="http://www.w3.org/2001/XMLSchema"{tns}{form}>\n{unions}'
         f' <xs:element name="r">\n  <xs:complexType>\n{body}  </xs:complexType>\n </xs:element>\n</xs:schema>\n'
@@ -182,6 +192,489 @@ def group_refs_xsd(group, refs, ns="urn:t", types=None):
         inner = ref if i % 2 == 0 else f"<xs:sequence>{ref}</xs:sequence>"
         out += f' <xs:element name="r{i}"><xs:complexType>{inner}</xs:complexType></xs:element>\n'
     return out + "</xs:schema>\n"
+
+
+# --------------------------------------------------------------------------
+# schemas with named model groups and xs:all  (model: lean/XsdataModel/Gen/Groups.lean)
+#   particle := {"elem":[n,mn,mx]} | {"seq":[mn,mx,kids]} | {"choice":[...]} | {"all":[mn,mx,kids]} | {"ref":[g,mn,mx]}
+#   schema   := {"defs": [[name, particle], ...], "types": [particle, ...]}   (type i = complex type of element r<i>)
+# --------------------------------------------------------------------------
+def gkind(p):
+    return next(k for k in ("elem", "seq", "choice", "all", "ref") if k in p)
+
+
+def gen_gbody(rng, names, refs, depth=0, top=True, allow_all=True, valid=False):
+    """a model group (seq/choice/all) over element names drawn (without replacement) from `names`
+    and references drawn from `refs`; `valid`: keep inside what XSD 1.0 allows for xs:all"""
+    r = rng.random()
+    if not top and (depth >= 2 or r < 0.5):
+        if refs and rng.random() < 0.3:
+            mn, mx = rand_occ(rng)
+            return {"ref": [rng.choice(refs), mn, mx]}
+        if not names:
+            return None
+        n = names.pop(rng.randrange(len(names)))
+        mn, mx = rand_occ(rng)
+        return {"elem": [n, mn, mx]}
+    if top and allow_all and rng.random() < 0.25:
+        kids = []
+        for _ in range(rng.randint(1, 3)):
+            if not names:
+                break
+            n = names.pop(rng.randrange(len(names)))
+            mn, mx = rng.choice([(1, 1), (0, 1)]) if valid or rng.random() < 0.7 else rand_occ(rng)
+            kids.append({"elem": [n, mn, mx]})
+        if not kids:
+            return None
+        mn, mx = rng.choice([(1, 1), (0, 1)]) if valid or rng.random() < 0.8 else rand_occ(rng)
+        return {"all": [mn, mx, kids]}
+    kind = "seq" if rng.random() < 0.55 else "choice"
+    kids = []
+    for _ in range(rng.randint(1, 3)):
+        k = gen_gbody(rng, names, refs, depth + 1, False, allow_all, valid)
+        if k is not None:
+            kids.append(k)
+    if not kids:
+        return None
+    mn, mx = (1, 1) if top and valid and rng.random() < 0.5 else rand_occ(rng)
+    return {kind: [mn, mx, kids]}
+
+
+def gen_gschema(rng, valid=False, dup=False):
+    """1..3 named groups (group k may refer to groups k+1.., so the references are not circular) and
+    2..3 types that refer to them with their own occurrence ranges"""
+    nd = rng.randint(1, 3)
+    pool = list("abcdefghijklmnopq")
+    rng.shuffle(pool)
+    gnames = [f"g{k}" for k in range(nd)]
+    defs = []
+    for k in range(nd):
+        names = [pool.pop() for _ in range(3)] if not dup else list("abc")
+        later = gnames[k + 1:]
+        body = None
+        while body is None:
+            body = gen_gbody(rng, names, later, allow_all=not valid or not later, valid=valid)
+            if body is not None and "all" in body and valid and any("ref" in x for x in body["all"][2]):
+                body = None
+        # the model group of a definition carries no occurrence range of its own
+        kind = gkind(body)
+        if kind != "all" or valid:
+            body = {kind: [1, 1, body[kind][2]]}
+        defs.append([gnames[k], body])
+    all_groups = {n for n, b in defs if "all" in b}
+    types = []
+    for _ in range(rng.randint(2, 3)):
+        names = [pool.pop() for _ in range(2)] if not dup else list("abx")
+        r = rng.random()
+        if r < 0.35:
+            mn, mx = rand_occ(rng)
+            g = rng.choice(gnames)
+            if valid and g in all_groups:
+                mn, mx = rng.choice([(1, 1), (0, 1)])
+            t = {"ref": [g, mn, mx]}
+        else:
+            refs = [g for g in gnames if not (valid and g in all_groups)]
+            t = None
+            while t is None:
+                t = gen_gbody(rng, names, refs or None, allow_all=not valid, valid=valid)
+        types.append(t)
+    return {"defs": defs, "types": types}
+
+
+def gparticle_xsd_body(p, ind, tname):
+    pad = "  " * ind
+    k = gkind(p)
+    if k == "elem":
+        n, mn, mx = p["elem"]
+        return f'{pad}<xs:element name="{n}" type="{tname(n)}"{occ_attrs(mn, mx)}/>\n'
+    if k == "ref":
+        g, mn, mx = p["ref"]
+        return f'{pad}<xs:group ref="{g}"{occ_attrs(mn, mx)}/>\n'
+    tag = {"seq": "sequence", "choice": "choice", "all": "all"}[k]
+    mn, mx, kids = p[k]
+    return f"{pad}<xs:{tag}{occ_attrs(mn, mx)}>\n" + "".join(gparticle_xsd_body(c, ind + 1, tname) for c in kids) + f"{pad}</xs:{tag}>\n"
+
+
+def gschema_xsd(schema, ns="urn:t", types=None, defs_last=False):
+    """XSD text: the named groups, then global elements r0, r1, … whose anonymous complex types have
+    the content models `schema["types"]`"""
+    types = types or {}
+
+    def tname(n):
+        return ELEM_TYPES[types.get(n, "string")][0]
+
+    tns = f' targetNamespace="{ns}" xmlns="{ns}" elementFormDefault="qualified"' if ns else ""
+    out = f'<?xml version="1.0"?>\n<xs:schema xmlns:xs="http://www.w3.org/2001/XMLSchema"{tns}>\n'
+    out += "".join(
+        f' <xs:simpleType name="{u}"><xs:union memberTypes="{members}"/></xs:simpleType>\n'
+        for u, members in UNIONS.items()
+        if u in set(types.values())
+    )
+    gtext = "".join(f' <xs:group name="{g}">\n{gparticle_xsd_body(body, 2, tname)} </xs:group>\n' for g, body in schema["defs"])
+    ttext = "".join(
+        f' <xs:element name="r{i}">\n  <xs:complexType>\n{gparticle_xsd_body(t, 3, tname)}  </xs:complexType>\n </xs:element>\n'
+        for i, t in enumerate(schema["types"])
+    )
+    return out + (ttext + gtext if defs_last else gtext + ttext) + "</xs:schema>\n"
+
+
+def gparticle_names(schema, p, depth=0):
+    """element names of the expansion of `p`, with multiplicity, in document order"""
+    k = gkind(p)
+    if k == "elem":
+        return [p["elem"][0]]
+    if k == "ref":
+        body = dict(map(tuple, schema["defs"])).get(p["ref"][0])
+        return [] if body is None or depth > 8 else gparticle_names(schema, body, depth + 1)
+    out = []
+    for c in p[k][2]:
+        out += gparticle_names(schema, c, depth)
+    return out
+
+
+def sample_gword(rng, schema, p, budget=3, depth=0):
+    """a word of the language of `p` (the children of xs:all in a random order)"""
+
+    def reps(mn, mx):
+        hi = min(mn + budget if mx == MAXSIZE else mx, mn + budget)
+        return rng.randint(mn, max(mn, hi))
+
+    k = gkind(p)
+    if k == "elem":
+        n, mn, mx = p["elem"]
+        return [n] * reps(mn, mx)
+    if k == "ref":
+        g, mn, mx = p["ref"]
+        body = dict(map(tuple, schema["defs"]))[g]
+        out = []
+        for _ in range(reps(mn, mx)):
+            out += sample_gword(rng, schema, body, budget, depth + 1)
+        return out
+    mn, mx, kids = p[k]
+    out = []
+    for _ in range(reps(mn, mx)):
+        if k == "choice":
+            out += sample_gword(rng, schema, rng.choice(kids), budget, depth)
+        else:
+            order = list(kids)
+            if k == "all":
+                rng.shuffle(order)
+            for c in order:
+                out += sample_gword(rng, schema, c, budget, depth)
+    return out
+
+
+def renumber_classes(classes):
+    """like `renumber`, with one table for all the classes of a schema (the ids of a group definition
+    are shared by every class that refers to it); `index` (number of the element declaration, shared
+    by the clones of one declaration) by order of first appearance inside each class"""
+    ids = {}
+
+    def m(i):
+        if i is None or i <= 0:
+            return i
+        if i not in ids:
+            ids[i] = len(ids) + 1
+        return ids[i]
+
+    out = []
+    for sites in classes:
+        idx = {}
+        cls = []
+        for s in sites:
+            path = [[k, m(i), mn, mx] for k, i, mn, mx in s["path"]]
+            cls.append({**s, "index": idx.setdefault(s["index"], len(idx)), "path": path, "choice": m(s["choice"]), "sequence": m(s["sequence"])})
+        out.append(cls)
+    return out
+
+
+def real_schema_classes(xsd: str, upto="ungroup"):
+    """SchemaParser + SchemaMapper + the real ClassContainer up to the UNGROUP step (FlattenAttributeGroups)
+    or up to the FLATTEN step: the element attrs of the classes of r0, r1, … (raw ids)"""
+    from xsdata.codegen.container import ClassContainer, Steps
+    from xsdata.codegen.mappers.schema import SchemaMapper
+    from xsdata.codegen.parsers.schema import SchemaParser
+    from xsdata.models.config import GeneratorConfig
+    from xsdata.models.xsd import Schema
+
+    schema = SchemaParser(location="mem.xsd").from_bytes(xsd.encode(), Schema)
+    container = ClassContainer(GeneratorConfig())
+    container.extend(SchemaMapper.map(schema))
+    container.validate_classes()
+    container.process_classes(Steps.UNGROUP)
+    container.remove_groups()
+    if upto == "flatten":
+        container.process_classes(Steps.FLATTEN)
+    roots = sorted((c for c in container if c.name[:1] == "r" and c.name[1:].isdigit()), key=lambda c: int(c.name[1:]))
+    return [[export_attr(a) for a in c.attrs if a.is_element] for c in roots]
+
+
+def real_calc_classes(classes):
+    """one CalculateAttributePaths handler (as the container holds one) over all the classes in order"""
+    from xsdata.codegen.handlers.calculate_attribute_paths import CalculateAttributePaths
+
+    handler = CalculateAttributePaths()
+    out = []
+    for sites in classes:
+        target = build_class(sites)
+        handler.process(target)
+        out.append([export_attr(a) for a in target.attrs])
+    return out
+
+
+# --------------------------------------------------------------------------
+# attribute / element declarations: use, default, fixed  (model: lean/XsdataModel/Gen/Attrs.lean)
+#   decl := {"kind": "attribute", "use": None|"optional"|"required"|"prohibited", "default", "fixed", "type": "string"|None}
+#         | {"kind": "element", "min", "max", "default", "fixed", "type": "string"|None}
+# --------------------------------------------------------------------------
+def gen_decl(rng, kind=None):
+    kind = kind or rng.choice(["attribute", "element"])
+    r = rng.random()
+    default = fixed = None
+    if r < 0.3:
+        default = rng.choice(["dv", "x y", "7", ""])
+    elif r < 0.55:
+        fixed = rng.choice(["fv", "1", "a b"])
+    elif r < 0.6:
+        default, fixed = "dv", "fv"  # not a valid declaration; the mapper does not care
+    tp = rng.choice(["string", "string", None])
+    if kind == "attribute":
+        return {"kind": kind, "use": rng.choice([None, "optional", "required", "required", "prohibited"]), "default": default, "fixed": fixed, "type": tp}
+    mn, mx = rng.choice([(1, 1), (0, 1), (0, MAXSIZE), (1, MAXSIZE), (2, 2), (0, 0), (1, 1), (0, 1)])
+    return {"kind": kind, "min": mn, "max": mx, "default": default, "fixed": fixed, "type": tp}
+
+
+def decl_valid(d):
+    """what XSD allows (attribute: 3.2.3 / au-props-correct; element: default and fixed exclusive)"""
+    if d["default"] is not None and d["fixed"] is not None:
+        return False
+    if d["kind"] == "attribute":
+        if d["default"] is not None and d["use"] not in (None, "optional"):
+            return False
+        if d["use"] == "prohibited" and (d["default"] is not None or d["fixed"] is not None):
+            return False
+    elif d["max"] == 0:
+        return False
+    return True
+
+
+def decls_xsd(decls, ns="urn:t"):
+    els, ats = [], []
+    for i, d in enumerate(decls):
+        extra = "".join(f' {k}="{_xml_attr(d[k])}"' for k in ("default", "fixed") if d[k] is not None)
+        tp = ' type="xs:string"' if d["type"] == "string" else ""
+        if d["kind"] == "attribute":
+            use = f' use="{d["use"]}"' if d["use"] else ""
+            ats.append(f'   <xs:attribute name="d{i}"{tp}{use}{extra}/>\n')
+        else:
+            els.append(f'    <xs:element name="d{i}"{tp}{occ_attrs(d["min"], d["max"])}{extra}/>\n')
+    tns = f' targetNamespace="{ns}" xmlns="{ns}" elementFormDefault="qualified"' if ns else ""
+    return (
+        f'<?xml version="1.0"?>\n<xs:schema xmlns:xs="http://www.w3.org/2001/XMLSchema"{tns}>\n'
+        f' <xs:element name="r">\n  <xs:complexType>\n   <xs:sequence>\n{"".join(els)}   </xs:sequence>\n{"".join(ats)}  </xs:complexType>\n </xs:element>\n</xs:schema>\n'
+    )
+
+
+def _xml_attr(v):
+    return v.replace("&", "&amp;").replace('"', "&quot;").replace("<", "&lt;")
+
+
+def export_gattr(attr):
+    r = attr.restrictions
+    return {
+        "is_attribute": attr.is_attribute,
+        "min": r.min_occurs if r.min_occurs is not None else 0,
+        "max": r.max_occurs if r.max_occurs is not None else 0,
+        "default": attr.default,
+        "fixed": bool(attr.fixed),
+        "any_obj": object in attr.native_types,
+    }
+
+
+def real_attr_map(decls):
+    """SchemaParser + SchemaMapper + CalculateAttributePaths: the Attr of every declaration"""
+    from xsdata.codegen.handlers.calculate_attribute_paths import CalculateAttributePaths
+    from xsdata.codegen.mappers.schema import SchemaMapper
+    from xsdata.codegen.parsers.schema import SchemaParser
+    from xsdata.models.xsd import Schema
+
+    schema = SchemaParser(location="mem.xsd").from_bytes(decls_xsd(decls).encode(), Schema)
+    root = next(c for c in SchemaMapper.map(schema) if c.name == "r")
+    CalculateAttributePaths().process(root)
+    by_name = {a.name: a for a in root.attrs}
+    return [export_gattr(by_name[f"d{i}"]) for i in range(len(decls))]
+
+
+def build_gattr(g, name="x"):
+    from xsdata.codegen.models import Attr, AttrType, Restrictions
+    from xsdata.models.enums import DataType, Namespace, Tag
+
+    if g["is_attribute"]:
+        dt = DataType.ANY_SIMPLE_TYPE if g["any_obj"] else DataType.STRING
+        tag = Tag.ATTRIBUTE
+    else:
+        dt = DataType.ANY_TYPE if g["any_obj"] else DataType.STRING
+        tag = Tag.ELEMENT
+    a = Attr(name=name, tag=tag, types=[AttrType(qname=str(dt), native=True)], default=g["default"], fixed=g["fixed"],
+             restrictions=Restrictions(min_occurs=g["min"], max_occurs=g["max"]))
+    if g.get("xsi_type"):
+        a.name, a.namespace = "type", Namespace.XSI.uri
+    return a
+
+
+def real_attr_sanitize(gattrs):
+    from xsdata.codegen.container import ClassContainer
+    from xsdata.codegen.handlers import SanitizeAttributesDefaultValue
+    from xsdata.codegen.models import Class
+    from xsdata.models.config import GeneratorConfig
+    from xsdata.models.enums import Tag
+
+    handler = SanitizeAttributesDefaultValue(ClassContainer(GeneratorConfig()))
+    target = Class(qname="r", tag=Tag.ELEMENT, location="mem")
+    out = []
+    for g in gattrs:
+        a = build_gattr(g)
+        target.attrs = [a]
+        handler.process_attribute(target, a)
+        out.append(export_gattr(a))
+    return out
+
+
+def dataclass_field_shape(f):
+    import dataclasses
+
+    if f.default_factory is not dataclasses.MISSING:
+        d = "list" if f.default_factory in (list, tuple) else "factory"
+    elif f.default is dataclasses.MISSING:
+        d = "MISSING"
+    elif f.default is None:
+        d = "None"
+    else:
+        d = [f.default if isinstance(f.default, str) else repr(f.default)]
+    return {"init": f.init, "default": d}
+
+
+# --------------------------------------------------------------------------
+# derived complex types: restriction overrides, extension  (model: lean/XsdataModel/Gen/Derive.lean)
+#   oattr := {"name", "min", "max", "default", "fixed"}
+# --------------------------------------------------------------------------
+def build_oattr(o, name="x"):
+    from xsdata.codegen.models import Attr, AttrType, Restrictions
+    from xsdata.models.enums import DataType, Tag
+
+    return Attr(name=o.get("name", name), tag=Tag.ELEMENT, types=[AttrType(qname=str(DataType.STRING), native=True)],
+                default=o.get("default"), fixed=bool(o.get("fixed")), restrictions=Restrictions(min_occurs=o["min"], max_occurs=o["max"]))
+
+
+def export_oattr(a):
+    return {"min": a.restrictions.min_occurs, "max": a.restrictions.max_occurs, "default": a.default, "fixed": bool(a.fixed)}
+
+
+def real_override(child, parent):
+    import logging
+
+    from xsdata.codegen.handlers import ValidateAttributesOverrides
+    from xsdata.codegen.models import Class
+    from xsdata.models.enums import Tag
+
+    c, p = build_oattr(child), build_oattr(parent)
+    p.parent = "{urn:t}A"
+    target = Class(qname="{urn:t}C", tag=Tag.COMPLEX_TYPE, location="mem", attrs=[c])
+    logging.getLogger("xsdata.logger").disabled = True
+    try:
+        ValidateAttributesOverrides.validate_override(target, c, p)
+    finally:
+        logging.getLogger("xsdata.logger").disabled = False
+    return {"child": export_oattr(c) if any(x is c for x in target.attrs) else None, "parent": export_oattr(p)}
+
+
+def real_restrict_attrs(base, own):
+    """the real handler on constructed classes A and C(restriction of A) in a real container"""
+    import logging
+
+    from xsdata.codegen.container import ClassContainer
+    from xsdata.codegen.handlers import ValidateAttributesOverrides
+    from xsdata.codegen.models import AttrType, Class, Extension, Restrictions
+    from xsdata.models.config import GeneratorConfig
+    from xsdata.models.enums import Tag
+
+    a = Class(qname="{urn:t}A", tag=Tag.COMPLEX_TYPE, location="mem", attrs=[build_oattr(o) for o in base])
+    c = Class(qname="{urn:t}C", tag=Tag.COMPLEX_TYPE, location="mem", attrs=[build_oattr(o) for o in own],
+              extensions=[Extension(tag=Tag.RESTRICTION, type=AttrType(qname="{urn:t}A"), restrictions=Restrictions())])
+    container = ClassContainer(GeneratorConfig())
+    container.extend([a, c])
+    logging.getLogger("xsdata.logger").disabled = True
+    try:
+        ValidateAttributesOverrides(container).process(c)
+    finally:
+        logging.getLogger("xsdata.logger").disabled = False
+    return {"derived": [[x.name, export_oattr(x)] for x in c.attrs], "base": [[x.name, export_oattr(x)] for x in a.attrs]}
+
+
+def gen_oattr(rng, name=None):
+    mn, mx = rng.choice([(1, 1), (0, 1), (0, MAXSIZE), (1, MAXSIZE), (2, 2), (0, 0), (2, 5), (1, 1), (0, 1)])
+    d = rng.choice([None, None, "dv", "x"])
+    o = {"min": mn, "max": mx, "default": d, "fixed": d is not None and rng.random() < 0.4}
+    if name:
+        o["name"] = name
+    return o
+
+
+def derive_xsd(base, own=None, ext=None, ns="urn:t"):
+    """complexType A (a sequence of `base` elements); C = restriction of A re-declaring `own`;
+    B = extension of A by the particle `ext`; global elements ra, rc, rb"""
+
+    def el(o):
+        extra = ""
+        if o.get("default") is not None:
+            extra = f' {"fixed" if o.get("fixed") else "default"}="{_xml_attr(o["default"])}"'
+        return f'<xs:element name="{o["name"]}" type="xs:string"{occ_attrs(o["min"], o["max"])}{extra}/>'
+
+    out = f'<?xml version="1.0"?>\n<xs:schema xmlns:xs="http://www.w3.org/2001/XMLSchema" targetNamespace="{ns}" xmlns="{ns}" elementFormDefault="qualified">\n'
+    if isinstance(base, list):
+        out += ' <xs:complexType name="A"><xs:sequence>' + "".join(el(o) for o in base) + "</xs:sequence></xs:complexType>\n"
+    else:
+        body = particle_xsd(base, ns=ns).split("<xs:complexType>\n", 1)[1].rsplit("  </xs:complexType>", 1)[0]
+        out += f' <xs:complexType name="A">\n{body} </xs:complexType>\n'
+    out += ' <xs:element name="ra" type="A"/>\n'
+    if own is not None:
+        out += ' <xs:complexType name="C"><xs:complexContent><xs:restriction base="A"><xs:sequence>' + "".join(el(o) for o in own) + "</xs:sequence></xs:restriction></xs:complexContent></xs:complexType>\n <xs:element name=\"rc\" type=\"C\"/>\n"
+    if ext is not None:
+        body = particle_xsd(ext, ns=ns).split("<xs:complexType>\n", 1)[1].rsplit("  </xs:complexType>", 1)[0]
+        out += f' <xs:complexType name="B"><xs:complexContent><xs:extension base="A">\n{body}</xs:extension></xs:complexContent></xs:complexType>\n <xs:element name="rb" type="B"/>\n'
+    return out + "</xs:schema>\n"
+
+
+# --------------------------------------------------------------------------
+# substitution groups  (model: lean/XsdataModel/Gen/Subst.lean)
+# --------------------------------------------------------------------------
+def real_subst_sites(sites, subs, refs, ns="urn:t"):
+    """the real AddAttributeSubstitutions on a constructed class whose `refs` attrs are typed by global
+    element classes; `subs`: (member, head) pairs"""
+    from xsdata.codegen.container import ClassContainer
+    from xsdata.codegen.handlers import AddAttributeSubstitutions
+    from xsdata.codegen.models import AttrType, Class
+    from xsdata.models.config import GeneratorConfig
+    from xsdata.models.enums import Tag
+
+    q = lambda n: "{%s}%s" % (ns, n)  # noqa: E731
+    target = build_class(sites)
+    for a in target.attrs:
+        if a.name in refs:
+            a.types = [AttrType(qname=q(a.name))]
+    heads = dict(map(tuple, subs))
+    classes = [target]
+    for n in dict.fromkeys(list(refs) + list(heads) + list(heads.values())):
+        classes.append(Class(qname=q(n), tag=Tag.ELEMENT, location="mem", namespace=ns, substitutions=[q(heads[n])] if n in heads else []))
+    container = ClassContainer(GeneratorConfig())
+    container.extend(classes)
+    AddAttributeSubstitutions(container).process(target)
+    return [export_attr(a) for a in target.attrs]
+
+
+def by_name(sites):
+    """order of insertion and `index` of the clones are not modelled"""
+    return renumber(sorted(({**s, "index": 0} for s in sites), key=lambda s: s["name"]))
 
 
 # --------------------------------------------------------------------------
@@ -255,11 +748,11 @@ def real_stage(sites, stage):
 
     target = build_class(sites)
     if stage in ("calc", "all"):
-        CalculateAttributePaths.process(target)
+        CalculateAttributePaths().process(target)  # the container holds an instance; `process` is a classmethod today
     if stage in ("effective", "all"):
         UpdateAttributesEffectiveChoice().process(target)
     if stage in ("merge", "all"):
-        MergeAttributes.process(target)
+        MergeAttributes().process(target)
     return [export_attr(a) for a in target.attrs]
 
 
